@@ -94,6 +94,13 @@ func c03Gen(seed uint64, run int, tier string) *Case {
 				// all the same (with an error, often): the other requests' replies must not notice
 				c.Ops = append(c.Ops, reqOp(ci, ti, 200+i, mode, r.Pct(60), cnt, r.Pct(30), 1))
 				c.Ops = append(c.Ops, flushOp(ci, 300+i, 200+i, r.Pick(fpWhenHeld, fpNoWait), r.Pct(50)))
+				if r.Pct(40) {
+					// a second and third Tflush naming the same request: each gets its own Rflush
+					c.Ops = append(c.Ops, flushOp(ci, 400+i, 200+i, r.Pick(fpWhenHeld, fpNoWait), r.Pct(50)))
+					if r.Pct(40) {
+						c.Ops = append(c.Ops, flushOp(ci, 500+i, 200+i, fpWhenHeld, r.Pct(50)))
+					}
+				}
 				continue
 			}
 			c.Ops = append(c.Ops, reqOp(ci, ti, i%nslots, mode, isErr, cnt, r.Pct(30), 0))
